@@ -72,7 +72,7 @@ CATALOG = {
         "drivers": [("shape", {"quick": 800, "thorough": 30000}, {})],
         "models": [{"module": "MC_Shape", "cfg": {"quick": "MC_Shape_quick", "thorough": "MC_Shape_thorough"},
                     "extract": "shape_vectors", "replay": "run_shape_vector", "chunk": 60,
-                    "limit": {"quick": 9000, "thorough": 400000}}],
+                    "limit": {"quick": 12000, "thorough": 400000}}],
     },
     "C10": {
         "drivers": [("reduce", {"quick": 500, "thorough": 20000}, {})],
